@@ -23,6 +23,15 @@ func (st *State) exec(in ssa.Instruction) []*State {
 	case *ssa.DebugRef:
 	case *ssa.Alloc:
 		id := st.nm(x)
+		if st.zero[id] && len(st.exact) > 0 {
+			// exact unrolling re-executes allocations: every execution creates its own object
+			for n := 1; ; n++ {
+				if cand := fmt.Sprintf("%s#%d", id, n); !st.zero[cand] {
+					id = cand
+					break
+				}
+			}
+		}
 		o := &Obj{ID: id, Type: x.Type().(*types.Pointer).Elem()}
 		st.zero[id] = true
 		// a re-executed alloc (never within one path, loops are cut) starts clean
@@ -809,7 +818,30 @@ func (st *State) builtin(x *ssa.Call, name string, args []Val) Val {
 			cs := ip.fresh("cap")
 			ip.SetBounds(cs, 0, lin.PosInf)
 			st.Facts = append(st.Facts, lin.Fact{F: lin.Sym(cs).Sub(ln)})
-			return Val{K: KSlice, S: &SliceV{ID: ip.fresh("append"), Len: ln, Cap: lin.Sym(cs), IsNil: Maybe}}
+			res := &SliceV{ID: ip.fresh("append"), Len: ln, Cap: lin.Sym(cs), IsNil: Maybe}
+			if ip.TrackBits {
+				// element tracking for short appended slices (layouts of loop bodies)
+				l0 := st.ip.SimplifyForm(args[0].S.Len, st)
+				if n := args[1].S.Len; n.IsConst() && n.C >= 0 && n.C <= 4 && (args[0].S.Elems != nil || (l0.IsConst() && l0.C == 0)) && args[1].S.Off.IsConst() {
+					elems := append([]Val{}, args[0].S.Elems...)
+					ok := true
+					for k := int64(0); k < n.C; k++ {
+						ev, has := st.mem[fmt.Sprintf("%s.[%d]", args[1].S.ID, args[1].S.Off.C+k)]
+						if !has {
+							ok = false
+							break
+						}
+						elems = append(elems, ev)
+					}
+					if ok {
+						if elems == nil {
+							elems = []Val{}
+						}
+						res.Elems = elems
+					}
+				}
+			}
+			return Val{K: KSlice, S: res}
 		}
 		if len(args) == 2 && args[0].K == KSlice {
 			// append(s, x...) where x is an untracked slice
@@ -1792,7 +1824,9 @@ func (st *State) emitVal(v Val, t types.Type) Val {
 }
 
 // nm is the name of an SSA value on this path: unique per call frame when calls are inlined.
-func (st *State) nm(x ssa.Value) string { return st.pfx + "%" + st.Fn.Name() + ":" + x.Name() }
+func (st *State) nm(x ssa.Value) string {
+	return st.pfx + "%" + st.Fn.Name() + ":" + x.Name() + st.iterTag
+}
 
 // inlineCall interprets the callee's body in the caller's state (InlineCalls): the exits of the callee become the
 // continuations of the call.
